@@ -90,3 +90,21 @@ Theorem C02_invariant_reachable :
   forall (P : params), params_ok P -> forall (ops : list op), Inv (reach P ops).
 Proof. exact reachable_Inv. Qed.
 Print Assumptions C02_invariant_reachable.
+
+(** identity level, whole histories (TokenLedger.v): an output that is handed out was produced by
+    a child that answered Ready, and it is handed out no more often than it was produced — no
+    item is yielded that no held future produced, none is yielded twice; the full conservation
+    statement (parked ++ handed out ++ dropped inside ≡ produced) is C06_outputs_ledger *)
+From FB Require Import TokenLedger.
+Theorem C02_yielded_outputs_were_produced :
+  forall (P : params) (ops : list op) (t : tok),
+  Forall tok_op ops -> In t (handed_in P init_state ops) -> In t (produced_in P init_state ops).
+Proof. exact handed_out_was_produced. Qed.
+Print Assumptions C02_yielded_outputs_were_produced.
+
+Theorem C02_no_output_yielded_more_often_than_produced :
+  forall (P : params) (ops : list op) (t : tok),
+  Forall tok_op ops ->
+  count_occ tok_eq_dec (handed_in P init_state ops) t <= count_occ tok_eq_dec (produced_in P init_state ops) t.
+Proof. exact handed_out_at_most_as_often_as_produced. Qed.
+Print Assumptions C02_no_output_yielded_more_often_than_produced.
